@@ -18,7 +18,8 @@ CONSTANT MaxDepth
 \* fn2: the function is called twice in a row from the same scope; its body reads x and y_i BEFORE it binds them
 \* cofdef: contentOf of an undefined name with a default block and data; partialvar: the partial's data is a map the caller
 \* keeps in a variable and uses again afterwards
-Kinds == {"for", "fn", "fn2", "partial", "partialvar", "cof", "cof2", "cofdef", "blkown", "foriter", "cofdeep"}
+\* for2: two loops one after the other in one scope, the body reading x and y_i before it binds them
+Kinds == {"for", "for2", "fn", "fn2", "partial", "partialvar", "cof", "cof2", "cofdef", "blkown", "foriter", "cofdeep"}
 \* bind: the construct itself binds x; let: it binds an unrelated name and its body lets x;
 \* bare: it binds nothing at all (function without parameters, partial / contentOf without data) and its body lets x
 Modes == {"bind", "let", "bare"}
@@ -53,6 +54,9 @@ Construct(i) ==
   CASE fs[i].k = "for"     -> <<Emit(For("", BN(i), Arr(<<BV(i)>>), Body(i)))>>
     [] fs[i].k = "fn"      -> IF Bare(i) THEN <<Let(FNm(i), FnLit(<<>>, Body(i))), Emit(Call(FNm(i), <<>>))>>
                               ELSE <<Let(FNm(i), FnLit(<<BN(i)>>, Body(i))), Emit(Call(FNm(i), <<BV(i)>>))>>
+    [] fs[i].k = "for2"    -> LET pre == <<Text(<<"<">>), Emit(Id("x")), Emit(IfElse(Id(YN(i)), <<Text(<<"L">>)>>, <<Text(<<"-">>)>>)), Text(<<">">>)>>
+                                  lp  == Emit(For("", BN(i), Arr(<<BV(i)>>), pre \o Body(i))) IN
+                              <<lp, Text(<<"/">>), lp>>
     [] fs[i].k = "fn2"     -> LET pre == <<Text(<<"<">>), Emit(Id("x")), Emit(IfElse(Id(YN(i)), <<Text(<<"L">>)>>, <<Text(<<"-">>)>>)), Text(<<">">>)>> IN
                               IF Bare(i) THEN <<Let(FNm(i), FnLit(<<>>, pre \o Body(i))), Emit(Call(FNm(i), <<>>)), Text(<<"/">>), Emit(Call(FNm(i), <<>>))>>
                               ELSE <<Let(FNm(i), FnLit(<<BN(i)>>, pre \o Body(i))), Emit(Call(FNm(i), <<BV(i)>>)), Text(<<"/">>), Emit(Call(FNm(i), <<BV(i)>>))>>
@@ -114,7 +118,7 @@ RECURSIVE Inside(_)
 ProbeText(i) == <<"[">> \o XV(i) \o <<",", "t", "0", "]">>
 AfterText(j) == IF j <= Len(fs) THEN <<"(">> \o XV(j - 1) \o <<"-", ")">> ELSE <<>>
 Inside(i) == ProbeText(i) \o (IF i < Len(fs) THEN Inside(i + 1) ELSE <<"*">>) \o AfterText(i + 1)
-ProbeTheorem == (res.k = "out" /\ \A i \in 1..Len(fs) : fs[i].k \notin {"cof2", "cofdeep", "fn2", "partialvar", "cofdef"}) => PiecesText(res.pieces) = ProbeText(0) \o Inside(1) \o AfterText(1) \o ProbeText(0)
+ProbeTheorem == (res.k = "out" /\ \A i \in 1..Len(fs) : fs[i].k \notin {"cof2", "cofdeep", "fn2", "for2", "partialvar", "cofdef"}) => PiecesText(res.pieces) = ProbeText(0) \o Inside(1) \o AfterText(1) \o ProbeText(0)
 
 Expect(r) == CASE r.k = "out" -> [k |-> "out", pieces |-> r.pieces, log |-> r.log]
                [] r.k = "err" -> [k |-> "err", w |-> r.w, log |-> r.log]
